@@ -55,42 +55,74 @@ mod verif_c20 {
   macro_rules! dis {
     ($name:ident, $lo:expr, $hi:expr, $cb:expr) => {
       #[kani::proof]
-      #[kani::unwind(18)]
+      #[kani::unwind(10)]
       #[kani::stub(<crate::decoder::ops::Op as std::fmt::Display>::fmt, stub_op_fmt)]
       fn $name() { group($lo, $hi, $cb); }
     };
   }
-  dis!(c20_dis_00, 0x00, 0x10, false);
-  dis!(c20_dis_10, 0x10, 0x20, false);
-  dis!(c20_dis_20, 0x20, 0x30, false);
-  dis!(c20_dis_30, 0x30, 0x40, false);
-  dis!(c20_dis_40, 0x40, 0x50, false);
-  dis!(c20_dis_50, 0x50, 0x60, false);
-  dis!(c20_dis_60, 0x60, 0x70, false);
-  dis!(c20_dis_70, 0x70, 0x80, false);
-  dis!(c20_dis_80, 0x80, 0x90, false);
-  dis!(c20_dis_90, 0x90, 0xa0, false);
-  dis!(c20_dis_a0, 0xa0, 0xb0, false);
-  dis!(c20_dis_b0, 0xb0, 0xc0, false);
-  dis!(c20_dis_c0, 0xc0, 0xd0, false);
-  dis!(c20_dis_d0, 0xd0, 0xe0, false);
-  dis!(c20_dis_e0, 0xe0, 0xf0, false);
-  dis!(c20_dis_f0, 0xf0, 0x100, false);
-  dis!(c20_dis_cb00, 0x00, 0x10, true);
-  dis!(c20_dis_cb10, 0x10, 0x20, true);
-  dis!(c20_dis_cb20, 0x20, 0x30, true);
-  dis!(c20_dis_cb30, 0x30, 0x40, true);
-  dis!(c20_dis_cb40, 0x40, 0x50, true);
-  dis!(c20_dis_cb50, 0x50, 0x60, true);
-  dis!(c20_dis_cb60, 0x60, 0x70, true);
-  dis!(c20_dis_cb70, 0x70, 0x80, true);
-  dis!(c20_dis_cb80, 0x80, 0x90, true);
-  dis!(c20_dis_cb90, 0x90, 0xa0, true);
-  dis!(c20_dis_cba0, 0xa0, 0xb0, true);
-  dis!(c20_dis_cbb0, 0xb0, 0xc0, true);
-  dis!(c20_dis_cbc0, 0xc0, 0xd0, true);
-  dis!(c20_dis_cbd0, 0xd0, 0xe0, true);
-  dis!(c20_dis_cbe0, 0xe0, 0xf0, true);
-  dis!(c20_dis_cbf0, 0xf0, 0x100, true);
+  dis!(c20_dis_00, 0x00, 0x08, false);
+  dis!(c20_dis_08, 0x08, 0x10, false);
+  dis!(c20_dis_10, 0x10, 0x18, false);
+  dis!(c20_dis_18, 0x18, 0x20, false);
+  dis!(c20_dis_20, 0x20, 0x28, false);
+  dis!(c20_dis_28, 0x28, 0x30, false);
+  dis!(c20_dis_30, 0x30, 0x38, false);
+  dis!(c20_dis_38, 0x38, 0x40, false);
+  dis!(c20_dis_40, 0x40, 0x48, false);
+  dis!(c20_dis_48, 0x48, 0x50, false);
+  dis!(c20_dis_50, 0x50, 0x58, false);
+  dis!(c20_dis_58, 0x58, 0x60, false);
+  dis!(c20_dis_60, 0x60, 0x68, false);
+  dis!(c20_dis_68, 0x68, 0x70, false);
+  dis!(c20_dis_70, 0x70, 0x78, false);
+  dis!(c20_dis_78, 0x78, 0x80, false);
+  dis!(c20_dis_80, 0x80, 0x88, false);
+  dis!(c20_dis_88, 0x88, 0x90, false);
+  dis!(c20_dis_90, 0x90, 0x98, false);
+  dis!(c20_dis_98, 0x98, 0xa0, false);
+  dis!(c20_dis_a0, 0xa0, 0xa8, false);
+  dis!(c20_dis_a8, 0xa8, 0xb0, false);
+  dis!(c20_dis_b0, 0xb0, 0xb8, false);
+  dis!(c20_dis_b8, 0xb8, 0xc0, false);
+  dis!(c20_dis_c0, 0xc0, 0xc8, false);
+  dis!(c20_dis_c8, 0xc8, 0xd0, false);
+  dis!(c20_dis_d0, 0xd0, 0xd8, false);
+  dis!(c20_dis_d8, 0xd8, 0xe0, false);
+  dis!(c20_dis_e0, 0xe0, 0xe8, false);
+  dis!(c20_dis_e8, 0xe8, 0xf0, false);
+  dis!(c20_dis_f0, 0xf0, 0xf8, false);
+  dis!(c20_dis_f8, 0xf8, 0x100, false);
+  dis!(c20_dis_cb00, 0x00, 0x08, true);
+  dis!(c20_dis_cb08, 0x08, 0x10, true);
+  dis!(c20_dis_cb10, 0x10, 0x18, true);
+  dis!(c20_dis_cb18, 0x18, 0x20, true);
+  dis!(c20_dis_cb20, 0x20, 0x28, true);
+  dis!(c20_dis_cb28, 0x28, 0x30, true);
+  dis!(c20_dis_cb30, 0x30, 0x38, true);
+  dis!(c20_dis_cb38, 0x38, 0x40, true);
+  dis!(c20_dis_cb40, 0x40, 0x48, true);
+  dis!(c20_dis_cb48, 0x48, 0x50, true);
+  dis!(c20_dis_cb50, 0x50, 0x58, true);
+  dis!(c20_dis_cb58, 0x58, 0x60, true);
+  dis!(c20_dis_cb60, 0x60, 0x68, true);
+  dis!(c20_dis_cb68, 0x68, 0x70, true);
+  dis!(c20_dis_cb70, 0x70, 0x78, true);
+  dis!(c20_dis_cb78, 0x78, 0x80, true);
+  dis!(c20_dis_cb80, 0x80, 0x88, true);
+  dis!(c20_dis_cb88, 0x88, 0x90, true);
+  dis!(c20_dis_cb90, 0x90, 0x98, true);
+  dis!(c20_dis_cb98, 0x98, 0xa0, true);
+  dis!(c20_dis_cba0, 0xa0, 0xa8, true);
+  dis!(c20_dis_cba8, 0xa8, 0xb0, true);
+  dis!(c20_dis_cbb0, 0xb0, 0xb8, true);
+  dis!(c20_dis_cbb8, 0xb8, 0xc0, true);
+  dis!(c20_dis_cbc0, 0xc0, 0xc8, true);
+  dis!(c20_dis_cbc8, 0xc8, 0xd0, true);
+  dis!(c20_dis_cbd0, 0xd0, 0xd8, true);
+  dis!(c20_dis_cbd8, 0xd8, 0xe0, true);
+  dis!(c20_dis_cbe0, 0xe0, 0xe8, true);
+  dis!(c20_dis_cbe8, 0xe8, 0xf0, true);
+  dis!(c20_dis_cbf0, 0xf0, 0xf8, true);
+  dis!(c20_dis_cbf8, 0xf8, 0x100, true);
   // VERIF-END verif_c20
 }
